@@ -20,11 +20,15 @@ def variants(s):
         del v.hist[i]
         add(v)
     for ti, (t, ops) in enumerate(s.progs):
-        if ops:
+        # a thread keeps at least one operation: a thread without a line in the scenario text does not exist for the
+        # harness, and the schedule would name a thread that is not there
+        if len(ops) > 1:
             v = copy.deepcopy(s)
-            v.progs[ti] = (t, [])
+            v.progs[ti] = (t, ops[:1])
             add(v)
         for i in range(len(ops)):
+            if len(ops) == 1:
+                break
             v = copy.deepcopy(s)
             v.progs[ti] = (t, ops[:i] + ops[i + 1:])
             add(v)
